@@ -324,8 +324,22 @@ def build_world(sched, cpu_count=2, psutil=True, environ=None):
 
     sig = types.ModuleType("signal")
     for k in dir(_real_signal):
-        if k.startswith("SIG") or k in ("Signals", "Handlers", "NSIG"):
+        if k.startswith("SIG") or k in ("Signals", "Handlers", "Sigmasks", "NSIG", "valid_signals",
+                                        "strsignal", "ITIMER_REAL", "ITIMER_VIRTUAL",
+                                        "ITIMER_PROF"):
             setattr(sig, k, getattr(_real_signal, k))
+
+    def _sig_missing(name):
+        # anything that would act on the real process: the model has no answer -> the check
+        # is broken (internal error), never a verdict about loky
+        if name.startswith("__"):
+            raise AttributeError(name)
+        msg = f"unshimmed signal.{name} reached from simulated code"
+        s = K.S
+        if s is not None:
+            s.internal_error = msg
+        raise InternalError(msg)
+    sig.__getattr__ = _sig_missing
     w.mods["signal"] = sig
 
     sp = types.ModuleType("subprocess")
